@@ -6,13 +6,15 @@ META = dict(
               "on a real Logger+Log (rule always, counter stream) driven through its runner generator on an in-memory file system",
     text="Every combination of keep {0,1,2,3} x cycle period {0,1,2 ticks} x size threshold {0, header+1 record, header+3 records} x "
          "flush period {2,3 ticks} x reuse x restart {none, STOP/START of the same logger, new logger objects on the same directory} "
-         "(thorough: more periods, longer stream, logger period 2) runs a counter stream through the real Logger.  After every logger "
+         "(plus configurations with two logs in the logger; thorough: more periods, longer stream, logger period 2) runs a counter "
+         "stream through the real Logger.  After every logger "
          "send the retained files are read oldest to newest and compared with the rotation oracle; the run's journal then gives the "
          "file-system state after EVERY operation, and for each such crash point every admissible survival pattern of the unsynced bytes "
          "(any prefix, cut at every byte) is materialised and checked: every record written before the most recent completed Log.flush "
          "is still present (unless its copy was rotated out of the oldest slot), records are in order, at most once.",
     note="Durability model is an assumption (directory operations atomic and durable in program order, data durable only after fsync, "
-         "any prefix of unsynced appended bytes may survive); one log, rule always; no I/O errors injected; post-crash restart not modelled.",
+         "any prefix of unsynced appended bytes may survive); rule always only; filing.ocfn itself is replaced by the double (its contract is "
+         "modelled, its code is not run); no I/O errors injected; post-crash restart not modelled.",
 )
 import json
 import os
@@ -21,11 +23,16 @@ import re
 from mc import core
 
 TICK = 0.5
-BASE = "log"
+BASES = ["log", "logB"]
 TAG = "x"
-HEADER = "text\tAlways\t%s\n_time\t%s\n" % (BASE, TAG)
-H = len(HEADER)
 RECORD = re.compile(r"^\d+(?:\.\d+)?\t(\d+)$")
+
+
+def header_of(base):
+    return "text\tAlways\t%s\n_time\t%s\n" % (base, TAG)
+
+
+H = len(header_of(BASES[0]))
 
 
 def configs(tier):
@@ -47,23 +54,25 @@ def configs(tier):
                 for flush in flushes:
                     for reuse in (False, True):
                         for period in periods:
-                            restarts = [("none", 0)]
+                            variants = [("none", 0, 1)]
                             for m in mids:
-                                restarts.append(("same", m))
+                                variants.append(("same", m, 1))
                                 if reuse:
-                                    restarts.append(("proc", m))
-                            for restart in restarts:
+                                    variants.append(("proc", m, 1))
+                            if thorough or (keep in (0, 2) and not reuse):
+                                variants.append(("none", 0, 2))      # two logs in the logger
+                            for restart, mid, nlogs in variants:
                                 k, c, s = keep, cyc, size
                                 if not c:
                                     k = 0
                                 if not k:
                                     c, s = 0.0, 0
-                                key = (k, c, s, flush, reuse, period, restart)
+                                key = (k, c, s, flush, reuse, period, restart, mid, nlogs)
                                 if key in seen:
                                     continue
                                 seen.add(key)
                                 out.append(dict(keep=k, cyc=c, size=s, flush=flush, reuse=reuse, period=period,
-                                                restart=restart[0], mid=restart[1], nticks=nticks))
+                                                restart=restart, mid=mid, nticks=nticks, logs=nlogs))
     return out
 
 
@@ -73,14 +82,16 @@ def cfg_str(c):
         s += " period=%d" % c["period"]
     if c["restart"] != "none":
         s += " restart=%s@%d" % (c["restart"], c["mid"])
+    if c.get("logs", 1) != 1:
+        s += " logs=%d" % c["logs"]
     return s
 
 
-def parse(content):
+def parse(content, header):
     """-> (has_header, [seq...], torn_tail, junk_lines)"""
-    if content.startswith(HEADER):
-        has, body = True, content[H:]
-    elif HEADER.startswith(content):
+    if content.startswith(header):
+        has, body = True, content[len(header):]
+    elif header.startswith(content):
         return False, [], bool(content), 0            # nothing or a torn header only
     else:
         has, body = False, content
@@ -97,6 +108,18 @@ def parse(content):
     return has, seqs, bool(tail), junk
 
 
+class LogState:
+    """Harness-side bookkeeping for one Log of the logger."""
+
+    def __init__(self, k):
+        self.k = k
+        self.base = BASES[k]
+        self.header = header_of(self.base)
+        self.paths = []           # [main, copy 01, ...]
+        self.stretches = []       # content of the main file at each rotation (observed)
+        self.scanned = 0          # journal entries already scanned for rotations
+
+
 class Run:
     """One configuration executed once on a journalling VFS; clean-state oracle after every
     send, crash oracle afterwards over the journal."""
@@ -107,8 +130,8 @@ class Run:
         self.viol = []            # (group, sortkey, example, what, replay)
         self.part = core.Part()
         self.seq = 0              # records are numbered by the send that writes them
-        self.stretches = []       # content of the main file at each rotation (observed)
-        self.scanned = 0          # journal entries already scanned for rotations
+        self.logs = [LogState(k) for k in range(cfg.get("logs", 1))]
+        self.schedule = []
 
     # ---- bookkeeping
     def violation(self, group, where, what, extra=None):
@@ -124,32 +147,28 @@ class Run:
         from mc import vfs
         from ioflo.base import globaling as g
         c = self.cfg
-        w = vfs.LogWorld(self.fs, g.ALWAYS, fields=["n"], share_init=[("n", self.seq)], tick=TICK, base=BASE, tag=TAG,
+        w = vfs.LogWorld(self.fs, g.ALWAYS, fields=["n"], share_init=[("n", self.seq)], tick=TICK, base=BASES[0], tag=TAG,
                          logger_kw=dict(flushPeriod=c["flush"], keep=c["keep"], cyclePeriod=c["cyc"],
-                                        fileSize=c["size"], reuse=c["reuse"]))
-        fs = self.fs
-        log = w.log
-        orig = log.flush
-
-        def flush():
-            f = log.file
-            was_open = bool(f and not f.closed)
-            ino = f._inode.ino if was_open else None
-            orig()
-            if was_open:
-                fs.mark("flushed", ino=ino)      # a Log.flush() on an open file has completed
-        log.flush = flush
-        orig_close = log.close
-
-        def close():
-            f = log.file
-            was_open = bool(f and not f.closed)
-            ino = f._inode.ino if was_open else None
-            orig_close()
-            if was_open:
-                fs.mark("flushed", ino=ino, by="close")   # closing a log is a flush point too
-        log.close = close
+                                        fileSize=c["size"], reuse=c["reuse"]),
+                         more_logs=[(b, g.ALWAYS, ["n"]) for b in BASES[1:len(self.logs)]])
+        for k, log in enumerate(w.logs):
+            self.instrument(log, k)
         return w
+
+    def instrument(self, log, k):
+        """Journal a marker whenever Log.flush() / Log.close() returns for an open file."""
+        fs = self.fs
+
+        def wrap(orig, by):
+            def wrapped():
+                f = log.file
+                was_open = bool(f and not f.closed)
+                orig()
+                if was_open:
+                    fs.mark("flushed", log=k, by=by)
+            return wrapped
+        log.flush = wrap(log.flush, "flush")
+        log.close = wrap(log.close, "close")          # closing a log is a flush point too
 
     def plan(self):
         c = self.cfg
@@ -199,48 +218,50 @@ class Run:
                 self.violation("raises|%s" % type(ex).__name__, "tick %d %s" % (t, ctl),
                                "%s raised %r at tick %d (%s)" % (ctl, ex, t, cfg_str(self.cfg)))
                 return w
-            self.paths = w.paths()
-            if self.clean_check(w, t, ctl):
-                return w
-        self.paths = w.paths()
+            for ls, log in zip(self.logs, w.logs):
+                ls.paths = w.paths(log)
+            for ls in self.logs:
+                if self.clean_check(ls, t, ctl):
+                    return w
+        self.fs._op("end", "")        # crash point after the last send has returned (process gone, then power loss)
         return w
 
     # ---- oracle on the state after a completed send
-    def scan_rotations(self):
+    def scan_rotations(self, ls):
         """Rotation = rename of the main file.  Record the stretch it held and check the
         size threshold.  Returns a violation description or None."""
         fs = self.fs
-        main = self.paths[0]
+        main = ls.paths[0]
         bad = None
-        while self.scanned < len(fs.journal):
-            kind, args, info = fs.journal[self.scanned]
+        while ls.scanned < len(fs.journal):
+            kind, args, info = fs.journal[ls.scanned]
             if kind == "rename" and args[0] == main:
-                k = fs.snap_at.index(self.scanned)
+                k = fs.snap_at.index(ls.scanned)
                 before = fs.snaps[k - 1]["files"].get(main)
                 content = before[1] + "".join(before[2]) if before else ""
-                self.stretches.append(content)
+                ls.stretches.append(content)
                 if info["size"] < self.cfg["size"] and bad is None:
                     bad = ("rotated-below-threshold",
-                           "main file rotated at %d bytes, threshold %d" % (info["size"], self.cfg["size"]))
-            self.scanned += 1
+                           "%s rotated at %d bytes, threshold %d" % (os.path.basename(main), info["size"], self.cfg["size"]))
+            ls.scanned += 1
         return bad
 
-    def clean_check(self, w, t, ctl):
+    def clean_check(self, ls, t, ctl):
         fs = self.fs
         c = self.cfg
         where = "after tick %d %s" % (t, ctl)
         self.part.evaluations += 1
-        bad = self.scan_rotations()
+        bad = self.scan_rotations(ls)
         if bad:
             self.violation(bad[0], where, "%s (%s, %s)" % (bad[1], cfg_str(c), where))
             return True
-        contents = [fs.logical(p) for p in self.paths]
-        files = dict(zip(self.paths, contents))
+        contents = [fs.logical(p) for p in ls.paths]
+        files = dict(zip(ls.paths, contents))
         allseq = []
-        for p, content in reversed(list(zip(self.paths, contents))):     # oldest -> newest
+        for p, content in reversed(list(zip(ls.paths, contents))):     # oldest -> newest
             if not content:
                 continue
-            has, seqs, torn, junk = parse(content)
+            has, seqs, torn, junk = parse(content, ls.header)
             if not has or junk or torn:
                 self.violation("header", where,
                                "%s does not consist of one header followed by records: %r (%s, %s)"
@@ -252,28 +273,27 @@ class Run:
         if allseq != list(range(lo, want_last + 1)) or (c["keep"] == 0 and lo != 1):
             dup = len(set(allseq)) != len(allseq)
             self.violation("stream|%s" % ("duplicate" if dup else "gap-or-order"), where,
-                           "retained files read oldest to newest hold records %r; %d records were written (%s, %s)"
-                           % (allseq, want_last, cfg_str(c), where), dict(files=files))
+                           "retained files of %s read oldest to newest hold records %r; %d records were written (%s, %s)"
+                           % (ls.base, allseq, want_last, cfg_str(c), where), dict(files=files))
             return True
         # newest file = everything since the last rotation; copy k = k-th most recent stretch
         main = contents[0]
-        if self.stretches:
-            lastrot = parse(self.stretches[-1])[1]
-            older = [s for st in self.stretches for s in parse(st)[1]]
+        if ls.stretches:
+            older = [s for st in ls.stretches for s in parse(st, ls.header)[1]]
             since = list(range((max(older) if older else 0) + 1, want_last + 1))
-            got = parse(main)[1] if main else []
+            got = parse(main, ls.header)[1] if main else []
             if got != since:
                 self.violation("newest-file", where,
-                               "newest file holds %r, records since the last rotation are %r (%s, %s)"
-                               % (got, since, cfg_str(c), where), dict(files=files))
+                               "newest file of %s holds %r, records since the last rotation are %r (%s, %s)"
+                               % (ls.base, got, since, cfg_str(c), where), dict(files=files))
                 return True
-            for k in range(1, min(len(self.stretches), c["keep"]) + 1):
-                if contents[k] != self.stretches[-k]:
+            for k in range(1, min(len(ls.stretches), c["keep"]) + 1):
+                if contents[k] != ls.stretches[-k]:
                     self.violation("rotation-copy", where,
-                                   "copy %02d holds %r, the stretch rotated %d rotation(s) ago was %r (%s, %s)"
-                                   % (k, contents[k], k, self.stretches[-k], cfg_str(c), where), dict(files=files))
+                                   "copy %02d of %s holds %r, the stretch rotated %d rotation(s) ago was %r (%s, %s)"
+                                   % (k, ls.base, contents[k], k, ls.stretches[-k], cfg_str(c), where), dict(files=files))
                     return True
-        nrot = len(self.stretches)
+        nrot = len(ls.stretches)
         self.part.outcome("clean:%s" % ("no rotation" if nrot == 0 else "rotated, nothing dropped" if lo == 1 else "rotated, oldest dropped"))
         return False
 
@@ -282,13 +302,14 @@ class Run:
         from mc import vfs
         fs = self.fs
         c = self.cfg
-        paths = self.paths
-        oldest = paths[-1]
-        order = list(reversed(paths))                 # oldest -> newest
+        owner = {}                                    # path -> LogState
+        for ls in self.logs:
+            for p in ls.paths:
+                owner[p] = ls
         recs = {}                                     # ino -> [seq] written to it
-        written = 0                                   # highest record number handed to write()
-        flushed_upto = 0                              # ... at the most recent completed Log.flush()
-        dropped = set()                               # records rotated out of the oldest slot (by design)
+        written = [0] * len(self.logs)                # highest record number handed to write(), per log
+        flushed_upto = [0] * len(self.logs)           # ... at the most recent completed flush/close of that log
+        dropped = [set() for _ in self.logs]          # records rotated out of the oldest slot (by design)
         send = None
         snap_of = dict((j, k) for k, j in enumerate(fs.snap_at))
         for j, (kind, args, info) in enumerate(fs.journal):
@@ -296,55 +317,60 @@ class Run:
                 if args[0] == "send":
                     send = info
                 elif args[0] == "flushed":
-                    flushed_upto = written
+                    flushed_upto[info["log"]] = written[info["log"]]
                 continue
             ino = info.get("ino")
-            if kind == "write":
+            ls = owner.get(args[0]) if args else None
+            if kind == "write" and ls is not None:
                 for ln in args[1].split("\n"):
                     m = RECORD.match(ln)
                     if m:
                         recs.setdefault(ino, []).append(int(m.group(1)))
-                        written = max(written, int(m.group(1)))
-            elif kind == "rename":
+                        written[ls.k] = max(written[ls.k], int(m.group(1)))
+            elif kind == "rename" and ls is not None:
                 over = info.get("over")
                 if over is not None and recs.get(over):
-                    if args[1] == oldest:
-                        dropped.update(recs[over])    # rotated out of the oldest slot: by design
+                    if args[1] == ls.paths[-1]:
+                        dropped[ls.k].update(recs[over])    # rotated out of the oldest slot: by design
                     else:
                         self.violation("rotation-overwrote-retained-copy", "op %d rename" % j,
                                        "rename %s -> %s destroyed a copy holding records %r that is not the oldest (%s)"
                                        % (os.path.basename(args[0]), os.path.basename(args[1]), recs[over], cfg_str(c)))
                         return
-            need = set(range(1, flushed_upto + 1)) - dropped
+            need = [set(range(1, flushed_upto[k] + 1)) - dropped[k] for k in range(len(self.logs))]
+            anyneed = any(need)
             snap = fs.snaps[snap_of[j]]
             opname = kind if kind != "flush" else ("flush" if not args[1] else "close-flush")
             where0 = "crash after op %d (%s%s) in tick %s %s" % (
-                j, opname, " " + os.path.basename(args[0]) if args else "",
+                j, opname, " " + os.path.basename(args[0]) if args and args[0] else "",
                 send["tick"] if send else "-", send["control"] if send else "-")
             unsynced = sum(len(x) for f in snap["files"].values() for x in f[2])
             for pat, img in vfs.crash_images(snap, midwrite):
                 self.part.evaluations += 1
                 lost = sum(t - k for _p, k, t in pat)
-                present = []
                 bad = None
-                for p in order:
-                    content = img.get(p)
-                    if not content:
-                        continue
-                    has, seqs, torn, junk = parse(content)
-                    if seqs and not has:
-                        bad = ("crash|records-without-header", "%s has records but no header" % os.path.basename(p))
-                    elif junk:
-                        bad = ("crash|junk-line", "%s has a complete line that is neither header nor record" % os.path.basename(p))
-                    present.extend(seqs)
-                if bad is None and any(b <= a for a, b in zip(present, present[1:])):
-                    bad = ("crash|%s" % ("duplicate" if len(set(present)) != len(present) else "order"),
-                           "records read oldest to newest are %r" % (present,))
-                missing = sorted(need - set(present))
-                if bad is None and missing:
-                    bad = ("crash|flushed-record-lost|after-%s" % opname,
-                           "records %r were written before the last completed flush but are not in the files (present: %r)"
-                           % (missing, present))
+                for ls in self.logs:
+                    present = []
+                    for p in reversed(ls.paths):          # oldest -> newest
+                        content = img.get(p)
+                        if not content:
+                            continue
+                        has, seqs, torn, junk = parse(content, ls.header)
+                        if seqs and not has:
+                            bad = ("crash|records-without-header", "%s has records but no header" % os.path.basename(p))
+                        elif junk:
+                            bad = ("crash|junk-line", "%s has a complete line that is neither header nor record" % os.path.basename(p))
+                        present.extend(seqs)
+                    if bad is None and any(b <= a for a, b in zip(present, present[1:])):
+                        bad = ("crash|%s" % ("duplicate" if len(set(present)) != len(present) else "order"),
+                               "records of %s read oldest to newest are %r" % (ls.base, present))
+                    missing = sorted(need[ls.k] - set(present))
+                    if bad is None and missing:
+                        bad = ("crash|flushed-record-lost|after-%s" % opname,
+                               "records %r of %s were written before its last completed flush but are not in the files (present: %r)"
+                               % (missing, ls.base, present))
+                    if bad:
+                        break
                 if bad:
                     where = where0 + " surviving unsynced bytes %s" % (",".join("%d/%d" % (k, t) for _p, k, t in pat) or "-")
                     self.violation(bad[0], where, "%s; %s (%s)" % (bad[1], where, cfg_str(c)),
@@ -356,7 +382,7 @@ class Run:
                 self.part.outcome("crash:%s/%s" % (
                     "nothing unsynced" if not unsynced else "all unsynced lost" if lost == unsynced else
                     "all unsynced kept" if not lost else "partial loss",
-                    "flushed records at stake" if need else "no flushed records yet"))
+                    "flushed records at stake" if anyneed else "no flushed records yet"))
 
 
 def work(item):
@@ -370,11 +396,11 @@ def work(item):
     p = r.part
     p.notes["configs"] = 1
     p.notes["vfs_operations"] = sum(1 for e in r.fs.journal if e[0] != "mark")
-    p.notes["rotations"] = len(r.stretches)
+    p.notes["rotations"] = sum(len(ls.stretches) for ls in r.logs)
     p.notes["flushes_completed"] = sum(1 for e in r.fs.journal if e[0] == "mark" and e[1][0] == "flushed")
     if idx % 37 == 5:
         p.sample(dict(config=cfg_str(cfg), schedule=r.schedule,
-                      files=dict((os.path.basename(q), r.fs.logical(q)) for q in r.paths),
+                      files=dict((os.path.basename(q), r.fs.logical(q)) for ls in r.logs for q in ls.paths),
                       operations=p.notes["vfs_operations"]))
     p.extra["viol"] = r.viol
     return p
@@ -431,7 +457,7 @@ def run():
     ck.coverage_extra = dict(configurations=len(cfgs), tick=TICK, header_bytes=H, midwrite_cuts=midwrite,
                              ticks_per_run=cfgs[0]["nticks"] if cfgs else 0)
     return ck.finish(
-        rule="configurations (keep x cycle period x size threshold x flush period x reuse x restart kind%s) x crash after every journalled "
+        rule="configurations (keep x cycle period x size threshold x flush period x reuse x restart kind x one/two logs%s) x crash after every journalled "
              "VFS operation x every prefix (all byte offsets) of each file's unsynced bytes; evaluations = crash images + clean-state "
              "comparisons; distinct = (configuration, operation index, loss pattern) with at least one unsynced byte lost"
              % (" x logger period" if core.TIER == "thorough" else ""),
